@@ -1717,7 +1717,10 @@ def _format_t(path, root=T):
     while i < len(path):
         op, arg = path[i], path[i + 1]
         if op == '.':
-            prepr.append('.' + arg)
+            if arg.startswith('__'):  # T.__dunder is reserved, see TType.__()
+                prepr.append('.__(%s)' % bbrepr(arg[2:]))
+            else:
+                prepr.append('.' + arg)
         elif op == '[':
             if type(arg) is tuple:
                 if not arg:
